@@ -9,14 +9,14 @@ def src(name, d, compname="c1"):
     if d["ext"]:
         out.append("{% extends '" + d["ext"] + "' %}")
     else:
-        out.append("L" + name + ";")
+        out.append(("M" if d.get("v2") else "L") + name + ";")
     if d["unk"]:
         out.append("{{ 1 | nofilter }}")
     if d["inc"] and d["incpos"] == "body":
         out.append(inc)
 
     def block(blk):
-        s = "{% block " + blk + " %}" + blk + name + "("
+        s = "{% block " + blk + " %}" + blk + name + ("[" if d.get("v2") else "(")
         after = blk == "a" and d.get("sa")
         if d[blk] == "super" and not after:
             s += "{{ super() }}"
